@@ -9,6 +9,7 @@
 EXTENDS Integers, Sequences, FiniteSets, TLC
 CONSTANTS Lim
 LimDefault == (0 - 1)..3
+LimQuick == 0..2
 VARIABLES stack, tokens, negs, done
 LF == INSTANCE LineFilter WITH MaxLines <- 4, Ks <- Lim, MaxTokens <- 1, MaxNeg <- 0, Deviations <- {}
 LFD1 == INSTANCE LineFilter WITH MaxLines <- 4, Ks <- Lim, MaxTokens <- 1, MaxNeg <- 0, Deviations <- {"D1"}
